@@ -20,7 +20,7 @@ THEOREMS = [
     "C06S.hang_iff", "C06S.write_guard",
     "C06S.loop_post", "C06S.read_ok", "C06S.write_ok",
     "C06S.chanRead_eq_ioRead", "C06S.chanRead_spec", "C06S.chanRead_le", "C06S.chanRead_timed",
-    "C06S.subprocess_refines_scripted", "C06S.minReadWait_pos",
+    "C06S.subprocess_refines_scripted", "C06S.minReadWait_pos", "C06S.slice_is_module_attr",
 ]
 LEAN_MODULES = ["TbotVerif.Props.C06S"]
 PARAM_EXTRACTORS = ["subioextract"]
